@@ -5,8 +5,8 @@
     excluded kind is named here (classes with defaults are inside: the validator ignores `default`):
       - Deque / Anything / NoneField / non-String map keys / non-scalar enum literals: the mapping raises;
       - `multiplesOf = 0`;
-      - OneOf / AllOf / NotField (need the exactness direction), AnyOf over non-scalar options:
-        corresponded only.
+      - NotField, OneOf beyond Number / Integer / String options of pairwise different JSON types,
+        AllOf beyond raw scalars, AnyOf over non-scalar options: corresponded only.
     Set and `uniqueItems` are inside, under the region's explicit hypothesis `distinctImages`.
   * `regF` / `inAdmitRegion`: (declaration, value)-level region: the value is deeply well-formed and
     outside the known-finding regions (bool stored in a numeric / enum field, value inside the gap
@@ -44,6 +44,29 @@ def rawScalar : FieldDecl → Bool
   | .number _ | .integer _ | .string _ _ _ | .enumLit _ => true
   | _ => false
 
+/-- JSON type class of a raw scalar kind -/
+inductive JK where
+  | num | str
+deriving DecidableEq
+
+def jkind : FieldDecl → Option JK
+  | .number _ | .integer _ => some .num
+  | .string _ _ _ => some .str
+  | _ => none
+
+def vkind : PyVal → Option JK
+  | .int _ | .float _ => some .num
+  | .str _ => some .str
+  | _ => none
+
+def nodupK : List (Option JK) → Bool
+  | [] => true
+  | x :: xs => !xs.contains x && nodupK xs
+
+/-- the options are Number / Integer / String with pairwise different JSON types -/
+def typeDisjoint (fs : List FieldDecl) : Bool :=
+  fs.all (fun f => (jkind f).isSome) && nodupK (fs.map jkind)
+
 /-- item kinds for which `==`-distinct stored values have JSON-distinct serializations -/
 def uniqSafe : FieldDecl → Bool
   | .enumCls _ _ => true
@@ -74,7 +97,7 @@ def fragF : FieldDecl → Bool
     nodupS (fields.map (·.1)) && fragP fields
   | .anyOf fs =>
     if optShape fs then fragOpt fs else !fs.isEmpty && fs.all plainScalar && fragL fs
-  | .oneOf _ => false
+  | .oneOf fs => !fs.isEmpty && typeDisjoint fs && fragL fs
   | .allOf fs => !fs.isEmpty && fs.all rawScalar && fragL fs
   | .notF _ => false
   | .noneF => false
@@ -189,6 +212,7 @@ def regF (O : Oracles) : FieldDecl → PyVal → Bool
     | _ => false)
   | .anyOf fs, v => if optShape fs then !v.isNone && regOpt O fs v else regAll O fs v
   | .allOf fs, v => regAll O fs v
+  | .oneOf fs, v => regAll O fs v
   | _, _ => false
 termination_by structural f _ => f
 def regZip (O : Oracles) : List FieldDecl → List PyVal → Bool
